@@ -20,6 +20,7 @@ import Verif.Model.Constraints
   * `authority_sound(_parsed)`  the same on intermediates ++ issuing root, key ids or not
   * `excluded_exact`, `excluded_sound_*`   exclusion over the flat lists
   * `all_paths`, `checked_is_signed`   where the engine is consulted (source-derived tables)
+  * `bundle_root_found`, `bundle_sound`   roots read from a PEM bundle: position in the bundle is irrelevant
   * `front_issues_iff`, `front_sound`, `front_client_error`   the HTTP sign/renew/rekey handlers,
                             ACME and SCEP (ACME included since 89421a7)
   * `validate_total`        no name makes the engine abort on subtrees a parsed certificate can carry
@@ -1330,10 +1331,86 @@ theorem front_client_error (f : Front) (r : Reason) (k : Kind) :
 theorem front_demand (f : Front) (v : Verdict) : frontAnswer f v = frontDemand f v := by
   cases f <;> cases v <;> simp [frontAnswer, frontDemand]
 
+/-- **renewTok_issues**: the token-authenticated renewal hands out a certificate only if the
+    authority allows the names, whatever the certificate's own (old) chain looks like -/
+theorem renewTok_issues (pathOk : Bool) (v : Verdict) :
+    renewTokAnswer pathOk v = .issued → v = .allow := by
+  unfold renewTokAnswer
+  cases pathOk <;> simp
+  exact (front_issues_iff .renewTok v).1
+
+/-- … and never answers a name-constraint refusal with anything but a client error -/
+theorem renewTok_client_error (pathOk : Bool) (r : Reason) (k : Kind) :
+    renewTokAnswer pathOk (.deny r k) = .clientError := by
+  unfold renewTokAnswer
+  cases pathOk <;> simp [front_client_error]
+
 /-- **acme_status_refuted** (historic: `Order.Finalize` before 89421a7, `frontAnswerOld`): the
     authority's 403 for a name outside the constraints was wrapped into `serverInternal` (500). -/
 theorem acme_status_refuted : ¬ ∀ (f : Front) (v : Verdict), frontAnswerOld f v = frontDemand f v := by
   intro h
   exact absurd (h .acme (.deny .notPermitted .dns)) (by decide)
+
+/-! ## 14. Root bundles -/
+
+theorem readBundle_mem (bs : List Block) (roots : List Cert) (h : readBundle bs = some roots)
+    (c : Cert) : c ∈ roots ↔ Block.cert c ∈ bs := by
+  induction bs generalizing roots with
+  | nil => simp [readBundle] at h; subst h; simp
+  | cons b rest ih =>
+    cases b with
+    | skip => simp [readBundle] at h; simp [ih roots h]
+    | badCert => simp [readBundle] at h
+    | cert d =>
+      simp only [readBundle, Option.map_eq_some_iff] at h
+      obtain ⟨r', hr', rfl⟩ := h
+      simp [ih r' hr']
+
+theorem readBundle_some_of_no_bad (bs : List Block) (h : Block.badCert ∉ bs) :
+    ∃ roots, readBundle bs = some roots := by
+  induction bs with
+  | nil => exact ⟨[], rfl⟩
+  | cons b rest ih =>
+    have hrest : Block.badCert ∉ rest := fun h' => h (List.mem_cons_of_mem _ h')
+    obtain ⟨rs, hrs⟩ := ih hrest
+    cases b with
+    | skip => exact ⟨rs, by simp [readBundle, hrs]⟩
+    | badCert => exact absurd List.mem_cons_self h
+    | cert d => exact ⟨d :: rs, by simp [readBundle, hrs]⟩
+
+/-- **bundle_root_found**: a root certificate is in the authority's root list wherever it stands
+    in the bundle — after a retired root, after a CRL or any other block — and whatever stands
+    after it; so the root that issued the last intermediate reaches the constraints engine. -/
+theorem bundle_root_found (ints : List Cert) (bs : List Block) (last r : Cert)
+    (hl : ints.getLast? = some last) (hb : Block.cert r ∈ bs) (hok : Block.badCert ∉ bs)
+    (hs : last.issuer = r.subject) (hv : r.signsLast = true) :
+    ∃ roots ch, readBundle bs = some roots ∧ chainForSig ints roots = some ch ∧ ∀ c ∈ ints ++ [r], c ∈ ch := by
+  have hsome := readBundle_some_of_no_bad bs hok
+  obtain ⟨roots, hroots⟩ := hsome
+  have hr : r ∈ roots := (readBundle_mem bs roots hroots r).2 hb
+  obtain ⟨ch, hch, hsub⟩ := rootsel_complete ints roots last hl r hr hs hv
+  exact ⟨roots, ch, hroots, hch, hsub⟩
+
+/-- **bundle_sound**: with the roots taken from a bundle, what the authority allows is
+    acceptable on intermediates ++ the issuing root, wherever that root stands in the bundle -/
+theorem bundle_sound (ints : List Cert) (bs : List Block) (n : Names) (last r : Cert)
+    (hl : ints.getLast? = some last) (hb : Block.cert r ∈ bs)
+    (hs : last.issuer = r.subject) (hv : r.signsLast = true)
+    (hp : ∀ roots ch, readBundle bs = some roots → chainForSig ints roots = some ch → ParsedIP (ch.map (·.nc))) :
+    authorityValidateB ints bs n = some .allow → specAccept ((ints ++ [r]).map (·.nc)) n = true := by
+  intro h
+  unfold authorityValidateB at h
+  cases hrb : readBundle bs with
+  | none => simp [hrb] at h
+  | some roots =>
+    simp [hrb] at h
+    have hr : r ∈ roots := (readBundle_mem bs roots hrb r).2 hb
+    exact authority_sound_parsed ints roots n last r hl hr hs hv (fun ch hch => hp roots ch hrb hch) h
+
+/-- the red-team shape: retired root, its CRL, then the current root that excludes the name -/
+example : authorityValidateB [caCert "int" "root" "k1" "" {}]
+    [.cert (caCert "retired" "retired" "k9" "" {}), .skip,
+     .cert (caCert "root" "root" "k0" "" { xDNS := [s "bad.example.com"] } true)]
+    { dns := [s "x.bad.example.com"] } = some (.deny .excluded .dns) := by decide
 
 end Verif.Constraints
